@@ -206,17 +206,23 @@ def prio_lt(cb):
     return T.ind(T.cmp('Lt', T.root(('case', F(cb, 'kind'), 'Polled', 0)), T.root(('case', F(EOC, 'kind'), 'Polled', 0))))
 
 
+CT = 'ros2::rr::CallbackType::'
+
+
+def m(x, variant):
+    return ('matches', T.unroot(x), CT + variant)
+
+
+def is_pp_cond(kind):
+    return T.tor(m(kind, 'Polled'), m(kind, 'PolledUnknownPrio'))
+
+
 def kind_table(cb, arrived, cap_base):
-    """Def. 1 / Def. 5: number of instances of cb that can interfere"""
-    inner = T.root(('match', F(EOC, 'kind'), (
-        (POLLED, None, T.tmin(arrived, T.add(cap_base, prio_lt(cb)))),
-        ('_', None, T.tmin(arrived, T.add(cap_base, n(1)))),
-    )))
-    return T.root(('match', F(cb, 'kind'), (
-        (TIMER_ES, None, arrived),
-        (PUP, None, T.tmin(arrived, T.add(cap_base, n(1)))),
-        (POLLED, None, inner),
-    )))
+    """Def. 1 / Def. 5: number of instances of cb that can interfere -- a decision list over the callback kinds"""
+    k, ek = F(cb, 'kind'), F(EOC, 'kind')
+    polled = T.ite(m(ek, 'Polled'), T.tmin(arrived, T.add(cap_base, prio_lt(cb))), T.tmin(arrived, T.add(cap_base, n(1))))
+    return T.ite(T.tor(m(k, 'Timer'), m(k, 'EventSource')), arrived,
+                 T.ite(m(k, 'PolledUnknownPrio'), T.tmin(arrived, T.add(cap_base, n(1))), polled))
 
 
 def interference_sum(depth, per_cb):
@@ -253,7 +259,7 @@ def bw_spec():
     RHS_MAX = plus(n(1), interference_sum(0, bwrbf(X, X, 0)), cost(EOC, eta(EOC, X)))
     # Lemma 19: steps of the end of the chain shifted by one, steps of polled callbacks as they are
     cb = T.bv(0)
-    is_pp = ('matches', F(cb, 'kind'), 'ros2::rr::CallbackType::Polled(_)|ros2::rr::CallbackType::PolledUnknownPrio')
+    is_pp = is_pp_cond(F(cb, 'kind'))
     is_eoc = ('ptreq', *sorted([cb, EOC], key=T.key))
     filt = T.tor(is_pp, is_eoc)
     shift = T.ite(is_eoc, T.pos(T.sub(T.bv(1), n(1))), T.as_lin(T.bv(1)))
@@ -410,7 +416,7 @@ def check_kind_table_agreement(rep, crate):
         rep.bad('ANCHOR', 'ANCHOR:is_pp', p, 'function not found', fn=p)
         return
     t = Evaluator(crate).eval_body(b)
-    want = ('matches', P(0), 'ros2::rr::CallbackType::Polled(_)|ros2::rr::CallbackType::PolledUnknownPrio')
+    want = is_pp_cond(P(0))
     if t == want:
         rep.ok('KIND', 'KIND:is_pp', loc(b.raw), 'is_pp accepts exactly Polled(_) and PolledUnknownPrio', fn=p)
     else:
@@ -426,16 +432,22 @@ def check_kind_table_agreement(rep, crate):
         return
     ev = Evaluator(crate)
     t = T.unroot(ev.eval_body(bb))
-    # cost_of_jobs(cm, match kind {...}): collect the arms whose value mentions number_arrivals(.., activation_time)
+    # specialise the count to each callback kind and see whether the activation-time cap still influences it
     act = P(3)
-    arms = {}
-    for x in T.subterms(t):
-        if is_tag(x, 'match') and x[1] == F(P(0), 'kind'):
-            for pk, g, val in x[2]:
-                arms[pk] = T.mentions(val, act)
-    capped = sorted(k for k, v in arms.items() if v)
-    want_capped = sorted([PUP, POLLED])
-    if capped == want_capped and set(arms) == {TIMER_ES, PUP, POLLED}:
-        rep.ok('KIND', 'KIND:busy_window_rbf', loc(bb.raw), 'the activation-time cap influences the count exactly for Polled(_) and PolledUnknownPrio', fn=bb.path)
+    kind = T.unroot(F(P(0), 'kind'))
+    variants = ['Timer', 'EventSource', 'PolledUnknownPrio', 'Polled']
+    adt = crate.adts.get('ros2::rr::CallbackType')
+    if adt:
+        variants = [v['name'] for v in adt['variants']]
+    capped = []
+    for v in variants:
+        mp = {('matches', kind, CT + w): (T.TRUE if w == v else T.FALSE) for w in variants}
+        tv = T.substitute(t, mp)
+        if T.mentions(tv, act):
+            capped.append(v)
+    want_capped = sorted(['PolledUnknownPrio', 'Polled'])
+    if sorted(capped) == want_capped:
+        rep.ok('KIND', 'KIND:busy_window_rbf', loc(bb.raw), 'the activation-time cap influences the count exactly for Polled(_) and PolledUnknownPrio '
+               f'(kinds: {variants})', fn=bb.path)
     else:
-        rep.bad('KIND', 'KIND:busy_window_rbf', loc(bb.raw), f'the activation-time cap influences the count for {capped} (arms {sorted(arms)})', str(want_capped), fn=bb.path)
+        rep.bad('KIND', 'KIND:busy_window_rbf', loc(bb.raw), f'the activation-time cap influences the count for {sorted(capped)} (kinds: {variants})', str(want_capped), fn=bb.path)
